@@ -326,6 +326,23 @@ fn remove_path(v: &mut Value, path: &[String]) {
   }
 }
 
+fn drop_empty_objects_from_arrays(v: &mut Value) {
+  match v {
+    Value::Array(a) => {
+      a.retain(|x| !x.as_object().map(|o| o.is_empty()).unwrap_or(false));
+      for x in a {
+        drop_empty_objects_from_arrays(x);
+      }
+    }
+    Value::Object(o) => {
+      for (_, x) in o.iter_mut() {
+        drop_empty_objects_from_arrays(x);
+      }
+    }
+    _ => {}
+  }
+}
+
 fn strip_null_markers(v: &mut Value) {
   match v {
     Value::Array(a) => {
@@ -433,6 +450,11 @@ pub fn run(_params: &Params) {
           "tags": ["alpha", "beta", "gamma"]
         }
       });
+      // claims of other JSON shapes that are never concealed: empty objects and arrays inside arrays, nested
+      if ctx::choose(4) == 0 {
+        c["credentialSubject"]["slots"] = serde_json::json!([{}, {"name": "Algebra"}, [{}], {}, []]);
+        ctx::stat("probe.claims_with_empty_objects_in_arrays");
+      }
       if let Some(e) = expiry {
         c["expirationDate"] = crate::core::time::rfc3339(e).into();
       }
@@ -853,7 +875,17 @@ pub fn run(_params: &Params) {
               }
               strip_null_markers(&mut want);
               let got_c = serde_json::to_value(&decoded.credential).unwrap();
-              if got_c != want {
+              let mut want_without_empty_objects = want.clone();
+              drop_empty_objects_from_arrays(&mut want_without_empty_objects);
+              if got_c != want && got_c == want_without_empty_objects {
+                // (one signature for this way of differing: every `{}` that is an array element is gone, nothing else)
+                ctx::violation(
+                  "C16",
+                  "C16.reconstructed_credential_is_disclosed_subset",
+                  "returned-credential-differs/empty-objects-dropped-from-arrays",
+                  format!("returned {got_c}: the empty objects inside arrays of the issuer's credential {want} are gone"),
+                );
+              } else if got_c != want {
                 ctx::violation(
                   "C16",
                   "C16.reconstructed_credential_is_disclosed_subset",
